@@ -103,7 +103,7 @@ func TestC08SMTSmall(t *testing.T) {
 					continue // one operation per leaf position and batch: the real write set is a map per key
 				}
 				if rapid.IntRange(0, 9).Draw(t, "opkind") < 6 {
-					byPath[path] = store.VerifOp{Key: k, Value: rapid.SliceOfN(rapid.Byte(), 1, 3).Draw(t, "v")}
+					byPath[path] = store.VerifOp{Key: k, Value: rapid.SliceOfN(rapid.Byte(), 0, 3).Draw(t, "v")}
 				} else {
 					byPath[path] = store.VerifOp{Key: k, Delete: true}
 				}
